@@ -74,6 +74,13 @@ F('db_mark_end_states', r'constexpr\s+void\s+mark_end_states\(slice s,\s*size16_
 for nm, args in (('star', 'slice s'), ('plus', 'slice s'), ('cat', r'slice s1,\s*slice s2'), ('alt', r'slice s1,\s*slice s2')):
     cs = 'struct utils__slice db_%s(%s)' % (nm, 'struct utils__slice s' if 'slice s' == args else 'struct utils__slice s1, struct utils__slice s2')
     F('db_' + nm, r'constexpr\s+slice\s+%s\(%s\)' % (nm, args), cs, scope=DB, rules=DBR)
+F('db_rep', r'constexpr\s+slice\s+rep\(slice s,\s*size32_t n\)', 'struct utils__slice db_rep(struct utils__slice s, size32_t n)', scope=DB,
+  rules=[RangeFor([(r'sm\[j\]\.transitions', '256', 'b_sm.the_data[vx_idx(j, b_sm.current_size)].transitions[{i}]', 'size16_t', True),
+                   (r'st\.transitions', '256', 'st->transitions[{i}]', 'size16_t', True)], min=2),
+         S(r'sm\.push_back\(sm\[j\]\);', 'dfa_push_back(&b_sm, b_sm.the_data[vx_idx(j, b_sm.current_size)]);', name='R4:push_back(copy)'),
+         S(r'auto& st = sm\.back\(\);', 'struct dfa_state* st = &(*dfa_back(&b_sm));', name='R5:st'),
+         S(r'slice whole = s;', 'struct utils__slice whole = s;', name='R2:struct'),
+         S(r'(?<![\w.])cat\(', 'db_cat(', name='R4:cat')] + DBR)
 F('dfa_state__ctor', r'constexpr\s+dfa_state\(\)', 'void dfa_state__ctor(struct dfa_state* self)', scope=[r'struct\s+dfa_state\b'],
   rules=[RangeFor([(r'transitions', '256', 'self->transitions[{i}]', 'size16_t', True)])])
 # cvector<dfa_state<N>, N>: the three members the builder uses (same one-line bodies as in unit stdex; T is a struct here)
